@@ -143,9 +143,7 @@ Definition spec_C18 (i o : term) : bool :=
 
 Definition cls_C18 (i : term) : list Z :=
   let op := op_of i in
-  if String.eqb op "dot" then
-    let g := dgraph_of (gn i 1) in
-    ((if in_F25 g then [25] else []) ++ (if in_F26 g then [26] else []))%list
+  if String.eqb op "dot" then []   (* F29 / F30 are repaired: no class *)
   else if String.eqb op "cg" then
     let ns := cg_nodes_of i in
     ((if cg_nondet i then [900] else []) ++
